@@ -53,6 +53,8 @@ package core
 
 //@ func groupChain.save
 //@   property C19
+//@   # (the writes of the group store are not checked for errors by this code: the claim is for the fault-free run)
+//@   requires [io!init] ioReliable()
 //@   # the sqlite group index (mysql.InsertGroup) is assumed to work; its failure panics by design
 //@   option maypanic
 //@   requires chain != nil && group != nil && group.Header != nil && typeid(chain.groups) != 0 && chain.count < 4611686018427387903
@@ -69,6 +71,8 @@ package core
 
 //@ func groupChain.remove
 //@   property C19
+//@   # (the writes of the group store are not checked for errors by this code: the claim is for the fault-free run)
+//@   requires [io!init] ioReliable()
 //@   option maypanic
 //@   requires chain != nil && typeid(chain.groups) != 0
 //@   requires [wf] @gcWF(@select(ghost(kv), ref(chain.groups)), @select(ghost(kvhas), ref(chain.groups)), @gids, chain.count, bytes("gcurrent"), bytes("gcount"))
